@@ -134,11 +134,15 @@ def make_case(family, i, rng, tier):
     case['ping_between'] = (not as_close) and nfr > 1 and rng.random() < 0.4
     case['compressed'] = family == 'seeded' and not as_close and \
         rng.random() < 0.15
+    # permessage-deflate offered by the client and declined by the server:
+    # an ordinary uncompressed connection, fail-fast included
+    case['offer_declined'] = not case['compressed'] and rng.random() < 0.15
     case.update(ST.seg_fields(rng))
     case['gaps'] = [rng.choice([0, 0, 1000, 100000]) for _ in range(3)]
     if family == 'stall':
         case['stall'] = True
         case['compressed'] = False
+        case['offer_declined'] = rng.random() < 0.3
         case['seg'] = rng.choice(['one', 'cuts'])
         case['rest'] = rng.choice(['late', 'never'])
     return case
@@ -155,6 +159,8 @@ def build(case):
     compressed = bool(case.get('compressed'))
     if compressed:
         extra = [b'Sec-WebSocket-Extensions: permessage-deflate']
+        ws = {'compress': True}
+    elif case.get('offer_declined'):
         ws = {'compress': True}
     payload_offsets = []       # wire offset (in enc.stream) of payload byte k
     if case.get('before'):
